@@ -90,7 +90,12 @@ func (a *IBCAdapter) ParsePacket(
 		return nil, core.ErrNoOrbiterPacket.Wrap("data is not ICS20 packet")
 	}
 
-	if packet.GetReceiver() != core.ModuleAddress.String() {
+	// The receiver is compared as an address, not as a string: bech32 is
+	// case-insensitive, so an all upper-case encoding of the module address
+	// would otherwise bypass the Orbiter flow while the ICS-20 application
+	// still credits the module account.
+	receiver, err := sdk.AccAddressFromBech32(packet.GetReceiver())
+	if err != nil || !receiver.Equals(core.ModuleAddress) {
 		return nil, core.ErrNoOrbiterPacket.Wrap("receiver is not Orbiter module")
 	}
 
